@@ -303,7 +303,7 @@ fn startup_deadlock(rec: &RunRecord) -> bool {
         .first()
         .map(|t| t.iter().all(|(_, e)| matches!(e, TruthEv::Restored { .. } | TruthEv::Start)))
         .unwrap_or(true);
-    let unattached = rec.scenario.peers.iter().any(|p| !rec.hist.attached.iter().any(|(_, id)| *id == p.id));
+    let unattached = rec.scenario.peers.iter().any(|p| p.reattach_of.is_none() && !rec.hist.attached.iter().any(|(_, id)| *id == p.id));
     only_startup && unattached && rec.agent_ends.first().map(|e| e.is_none()).unwrap_or(true)
 }
 
@@ -1274,13 +1274,15 @@ pub fn check_persistence(rec: &RunRecord) -> Vec<Violation> {
         let item = match op {
             StoreOp::Put { item, .. } | StoreOp::Delete { item } | StoreOp::Update { item, .. } | StoreOp::Remove { item, .. } | StoreOp::Clear { item } => item,
         };
-        if ["tval", "tmap", "tvstore", "sup", "cmd", "ctl"].contains(&item.as_str()) {
+        let by_config = rec.scenario.knobs.all_lanes_transient && ["val", "map", "bmap", "smap"].contains(&item.as_str());
+        if by_config || ["tval", "tmap", "tvstore", "sup", "cmd", "ctl"].contains(&item.as_str()) {
             out.push(Violation::new("C05", "C05.transient_persisted", item, format!("transient item {item} was handed to the store")));
         }
     }
 
     // ---- C05.before_send: every frame read for a persistent lane was handed to the store earlier.
-    for f in rec.hist.frames.iter() {
+    // (With every lane made transient by the agent configuration there is no persistent lane.)
+    for f in rec.hist.frames.iter().filter(|_| !rec.scenario.knobs.all_lanes_transient) {
         let FrameKind::Event(body) = &f.kind else { continue };
         let epoch_base = if f.epoch == 0 { 0 } else { rec.restart_step.unwrap_or(0) };
         let _ = epoch_base;
@@ -1331,15 +1333,16 @@ pub fn check_persistence(rec: &RunRecord) -> Vec<Violation> {
             .map(|m| m.iter().filter_map(|(k, v)| Some((recon_key(name, k)?, recon_i32(v)?))).collect())
             .unwrap_or_default()
     };
+    let lanes_transient = rec.scenario.knobs.all_lanes_transient;
     for (name, got) in [("val", val), ("vstore", vstore)] {
-        let want = img_val(name).unwrap_or(0);
+        let want = if lanes_transient && name == "val" { 0 } else { img_val(name).unwrap_or(0) };
         if got != want {
             out.push(Violation::new("C05", "C05.restore_value", name, format!("{name} came back as {got} but the last value handed to the store was {want}")));
         }
     }
     let i32map = |m: &BTreeMap<i32, i32>| -> BTreeMap<String, i32> { m.iter().map(|(k, v)| (k.to_string(), *v)).collect() };
     for (name, got) in [("map", i32map(&map)), ("bmap", i32map(&bmap)), ("smap", smap.clone()), ("mstore", i32map(&mstore))] {
-        let want = img_map(name);
+        let want = if lanes_transient && name != "mstore" { BTreeMap::new() } else { img_map(name) };
         if got != want {
             out.push(Violation::new("C05", "C05.restore_map", name, format!("{name} came back as {:?} but the operations handed to the store imply {:?}", got, want)));
         }
@@ -1361,7 +1364,7 @@ pub fn check_persistence(rec: &RunRecord) -> Vec<Violation> {
         })
         .max();
     if let (Some(seen), Some(back)) = (seen_max, idx(val)) {
-        if back < seen {
+        if back < seen && !lanes_transient {
             out.push(Violation::new("C05", "C05.not_older", "value", format!("val came back as {val} (index {back}) but a subscriber had already seen index {seen}")));
         }
     }
